@@ -68,6 +68,14 @@ class GenericSystemRegistry(
         super()._init_dynamic_classes()
         self.System = create_class_with_registry(self, objects.System)
 
+    def __deepcopy__(self, memo):
+        new = super().__deepcopy__(memo)
+        # The copied systems belong to the copy, not to the source registry
+        # (while the attributes are still being copied there are none yet).
+        for system in vars(new).get("_systems", {}).values():
+            system.__class__ = new.System
+        return new
+
     def _after_init(self) -> None:
         """Invoked at the end of ``__init__``.
 
